@@ -393,6 +393,10 @@ def snapshot_oracle(sc):
     return None, known
 
 
+KF4 = ("KF-C19-4 closed-while-pending-open-is-kept: a stream closed (reset) while queued in pending_open stays stored until a "
+       "concurrency slot frees")
+
+
 def teardown_marks(sc):
     b = d = k = None
     for j, st in enumerate(sc["trace"]):
@@ -520,6 +524,10 @@ def quiescence_oracle(sc):
     expiring = [s for s in sn["streams"] if s["is_pending_reset_expiration"]]
     unaccepted = [s for s in sn["streams"] if s["is_pending_accept"]]
     other = [s for s in sn["streams"] if rec_closed(s) and not s["is_pending_reset_expiration"] and not s["is_pending_accept"]]
+    waiting_open = [s for s in other if rec_reasons(s) == ["is_pending_open"]]
+    if waiting_open and len(waiting_open) == len(other):
+        known = KF4          # kept only by its membership of pending_open: released when a concurrency slot frees, never otherwise
+        other = []
     if other:
         s = other[0]
         return {"why": "all handles dropped and the connection is quiescent, but a closed record that neither awaits reset expiry nor "
